@@ -436,14 +436,24 @@ def Cmd.goType : Cmd → String
   | .extract => "extractCommand" | .inject => "injectCommand" | .lockstate => "lockstateCommand"
   | .rmbreak => "rmBreakpointCommand" | .status => "statusCommand"
 
-/-- the argument-count test at the head of `Run` (text of the Go condition; "" = none) -/
-def Cmd.argCheck : Cmd → String
-  | .break_ => "len(args) == 0" | .breakonstart => "" | .cont => "len(args) != 2"
-  | .describe => "len(args) != 1" | .disablebreak => "len(args) == 0" | .extract => "len(args) != 3"
-  | .inject => "len(args) < 3" | .lockstate => "" | .rmbreak => "len(args) == 0" | .status => ""
+/-- the argument-count test at the head of `Run`: is a call with `n` arguments turned away
+    with the usage error before anything else happens? -/
+def Cmd.rejects : Cmd → Nat → Bool
+  | .break_, n => n == 0 | .breakonstart, _ => false | .cont, n => n != 2
+  | .describe, n => n != 1 | .disablebreak, n => n == 0 | .extract, n => n != 3
+  | .inject, n => n < 3 | .lockstate, _ => false | .rmbreak, n => n == 0 | .status, _ => false
 
-/-- the vocabulary the model handles: (key, Go type, argument-count test), sorted by key -/
-def vocabulary : List (String × String × String) := Cmd.all.map fun c => (c.name, c.goType, c.argCheck)
+/-- `Cmd.rejects` for 0..5 arguments, as the extractor prints it -/
+def Cmd.rejectTable (c : Cmd) : String :=
+  String.ofList ((List.range 6).map fun n => if c.rejects n then 'T' else 'F')
+
+/-- does a regenerated table contradict the model's? (`?` = the extractor did not understand the
+    condition: not established, not a contradiction) -/
+def tableRefuted (gen model : String) : Bool :=
+  gen.length != model.length || (gen.toList.zip model.toList).any fun p => p.1 != '?' && p.1 != p.2
+
+/-- the vocabulary the model handles: (key, Go type), sorted by key -/
+def vocabulary : List (String × String) := Cmd.all.map fun c => (c.name, c.goType)
 
 /-- `DebugCommandsMap[name]` -/
 def lookupCmd (name : Str) : Option Cmd := Cmd.all.find? fun c => str c.name == name
@@ -717,5 +727,16 @@ def heldAfter : List LockEv → Nat → Nat
   | .runlock :: r, n => heldAfter r (n - 1)
   | .wunlock :: r, n => heldAfter r (n - 1)
   | _ :: r, n => heldAfter r n
+
+
+/-- VisitStepInState: `Lock(); defer Unlock()`; when the thread is interrogated with command
+    Stop the lock is given up around a nested VisitState (which may wait) and taken again -/
+def visitStepInEvents (deferred : Bool) (interrogatedStop : Bool) (i : VisitIn) : List LockEv :=
+  [.wlock] ++ (if interrogatedStop then [.wunlock] ++ visitEvents deferred i ++ [.wlock] else []) ++ [.wunlock]
+
+/-- VisitStepOutState: `Lock(); defer Unlock()`; on a new error with break-on-error the lock is
+    given up around the wait and taken again (`giveUp = false`: a variant that waits inside) -/
+def visitStepOutEvents (giveUp : Bool) (stopsOnError : Bool) : List LockEv :=
+  [.wlock] ++ (if stopsOnError then (if giveUp then [.wunlock, .wait, .wlock] else [.wait]) else []) ++ [.wunlock]
 
 end Ecal.DebugCmd
